@@ -21,6 +21,7 @@ import (
 	"fmt"
 	"io"
 	"strings"
+	"unicode/utf8"
 )
 
 type token int
@@ -378,6 +379,15 @@ func (t *tokenizer) ReadValue(tok token) (string, error) {
 
 	if err != nil {
 		return "", err
+	}
+
+	switch tok {
+	case tokenSymbolQuoted, tokenString, tokenLongString:
+		// Quoted text is copied byte for byte; make sure it is well-formed UTF-8,
+		// as the binary reader does for its strings.
+		if !utf8.ValidString(str) {
+			return "", &UnexpectedTokenError{"text contains non-UTF-8 bytes", t.pos - 1}
+		}
 	}
 
 	t.unfinished = false
@@ -1161,7 +1171,7 @@ func (t *tokenizer) ReadLongClob() ([]byte, error) {
 	return val, nil
 }
 
-// IsTripleQuote returns true if this is a triple-quote sequence (''').
+// IsTripleQuote returns true if this is a triple-quote sequence (”').
 func (t *tokenizer) IsTripleQuote() (bool, error) {
 	// We've just read a '\'', check if the next two are too.
 	cs, err := t.peekN(2)
